@@ -61,6 +61,9 @@ func runC06Conc(rec *vk.Rec, ci int) {
 					size = r.Range(2000, 6000)
 				}
 				payload := bytes.Repeat([]byte{byte('a' + k)}, size)
+				if r.Chance(40) {
+					payload = r.Bytes(size) // incompressible
+				}
 				copy(payload, fmt.Sprintf("%x-%s-%d|", c, ck.lv, i))
 				lv := []string{ck.lv, "x"}
 				m := message.New(ssidOf(c, lv), []byte(ck.lv+"/x/"), payload)
